@@ -41,8 +41,14 @@
                 `workers`; put blocks while it is full)
      WExit      after the loop: games.close(); join_thread(); shutdown.wait() returned; exit 0
    faults:
-     FRaise w        an exception anywhere inside entrypoint's try (factory, evaluator, search,
-                     queue operations): logged; exit code raise_code cfg (1 now, 0 before the fix).
+     FRaise w        ANY Python exception that ends run_job / the epilogue (factory, evaluator, search, queue
+                     operations), i.e. every BaseException: an Exception is caught by entrypoint, logged, and the
+                     process exits with raise_code cfg (sys.exit(1) now, fall-through = 0 before the fix); a
+                     BaseException that is not an Exception (KeyboardInterrupt raised by the evaluator or by
+                     SIGINT, GeneratorExit, ...) is not caught: it leaves entrypoint, multiprocessing prints the
+                     traceback and the process exits with status 1 - the same event in `current`.  The one
+                     exception is a deliberate SystemExit(k): the status is k, and SystemExit(0) is a worker
+                     that dies with status 0 - outside the fault model (evidence-only probe `sysexit0`).
                      Locks held in `with` blocks are released by the unwinding.
      FKill w c       abrupt death with exit code c <> 0 (SIGKILL: -9, os._exit(3): 3).  Nothing is
                      released: a worker that dies while holding cmd's read lock leaves it locked
